@@ -255,3 +255,162 @@ Proof.
   - intros b pb _ Hb. apply (sess_ok_ext st); [exact Hs|]. apply (i_sess _ Iv _ _ Hb).
   - intros Hu. rewrite Hcn, Hse, Hs. apply (i_sess _ Iv _ _ Hp). apply Hus. exact Hu.
 Qed.
+
+(* ---------- what one appended frame does to the counters ---------- *)
+Lemma in_stream_kind_ne k s f : fkind f <> k -> in_stream k s f = false.
+Proof. intros H. apply in_stream_other. intros E. inversion E. congruence. Qed.
+
+Lemma snoc_other_kind k s f l : fkind f <> k -> next_of k s (l ++ [f]) = next_of k s l.
+Proof. intros H. rewrite next_of_snoc, in_stream_kind_ne by exact H. lia. Qed.
+
+Lemma snoc_cont_same f l : fkind f = KContinuity ->
+  next_of KContinuity (sid f) (l ++ [f]) = next_of KContinuity (sid f) l + 1.
+Proof. intros H. rewrite <- H. apply next_of_snoc_same. Qed.
+
+Lemma snoc_same_kind_other k s f l : sid f <> s -> next_of k s (l ++ [f]) = next_of k s l.
+Proof. intros H. apply next_of_snoc_other. intros E. inversion E. congruence. Qed.
+
+Lemma mk_frame_kind st c n t ar : fkind (mk_frame st c n t ar) = kind_of t.
+Proof. reflexivity. Qed.
+
+Lemma Valid_snoc_intro l f : Valid l -> seq f = next_of (fkind f) (sid f) l -> Valid (l ++ [f]).
+Proof. intros H1 H2. apply Valid_snoc. tauto. Qed.
+
+(* ---------- the micro-steps, one by one ---------- *)
+Ltac proj := cbn [s_log s_side s_next s_index s_fresh s_mu s_tcnt s_tmu s_procs set_proc set_store
+                  set_task p_rem p_ph p_cid p_seq p_last p_child p_sess p_cnt pop pop_same aborted abort].
+Ltac proj_in H := cbn [s_log s_side s_next s_index s_fresh s_mu s_tcnt s_tmu s_procs set_proc set_store
+                  set_task p_rem p_ph p_cid p_seq p_last p_child p_sess p_cnt pop pop_same aborted abort] in H.
+
+Lemma phase_after_eq ph m ph' : next_phase ph m = Some ph' -> phase_after ph m = ph'.
+Proof. intros H. unfold phase_after. rewrite H. reflexivity. Qed.
+
+Lemma task_ok_idle st a p : tholds (p_ph p) = false -> task_ok st a p.
+Proof. unfold task_ok. destruct (p_ph p); try discriminate; intros _; exact I. Qed.
+
+Section Step.
+  Variables (st : state) (a : N) (p : proc) (m : mstep) (r : list mstep) (ph' : phase).
+  Hypothesis Iv : Inv st.
+  Hypothesis Hp : s_procs st a = Some p.
+  Hypothesis Hr : p_rem p = m :: r.
+  Hypothesis Hnp : next_phase (p_ph p) m = Some ph'.
+  Hypothesis Hwr : wf_from ph' r = true.
+
+  Lemma Hus_tail : uses_sess r = true -> uses_sess (p_rem p) = true.
+  Proof. rewrite Hr. apply uses_sess_tail. Qed.
+
+  (* an idle actor moves on without touching anything shared (MTarget, MPickNewest, MRead, MBcast of a task) *)
+  Lemma idle_local_step st' p' :
+    holds (p_ph p) = false -> ph' = p_ph p ->
+    s_procs st' = upd (s_procs st) a (Some p') ->
+    s_log st' = s_log st -> s_next st' = s_next st -> s_fresh st' = s_fresh st -> s_mu st' = s_mu st ->
+    s_tmu st' = s_tmu st -> s_tcnt st' = s_tcnt st ->
+    p_rem p' = r -> p_ph p' = ph' -> p_sess p' = p_sess p -> p_cnt p' = p_cnt p ->
+    (tholds (p_ph p) = true -> p_seq p' = p_seq p) ->
+    Inv st'.
+  Proof.
+    intros Hh Hsame Hprocs Hl Hn Hf Hmu Htm Htc Hr' Hph' Hse Hcn Hsq.
+    apply (nonholder_quiet_step st st' a p p' Iv Hp Hh); try assumption.
+    - left. split; [exact Hmu|]. rewrite Hph', Hsame. exact Hh.
+    - rewrite Hr', Hph'. exact Hwr.
+    - pose proof (i_task _ Iv _ _ Hp) as Hta. unfold task_ok in *. rewrite Htm, Htc. unfold tnext. rewrite Hl.
+      rewrite Hph', Hsame, Hse.
+      destruct (p_ph p) eqn:E; try exact I; try exact Hta.
+      rewrite Hsq by reflexivity. exact Hta.
+    - rewrite Hr'. apply Hus_tail.
+  Qed.
+
+  Lemma busy_is_me c : holds (p_ph p) = true -> busy st c -> busy_on p c.
+  Proof.
+    intros Hh [b [pb [Hb Hbz]]].
+    assert (b = a) by (apply (holder_unique st b a pb p Iv Hb Hp (busy_on_holds _ _ Hbz) Hh)).
+    subst b. rewrite Hp in Hb. inversion Hb. subst pb. exact Hbz.
+  Qed.
+
+  Lemma mu_is_me : holds (p_ph p) = true -> s_mu st = Some a.
+  Proof. apply (i_lock _ Iv _ _ Hp). Qed.
+
+  (* the owner moves on without touching the log or the counters (MSidecar, MBcast, MIndexInsert,
+     MAlloc, MUnlock, early return) *)
+  Lemma holder_quiet_step st' p' :
+    holds (p_ph p) = true ->
+    s_procs st' = upd (s_procs st) a (Some p') ->
+    s_log st' = s_log st -> s_next st' = s_next st -> s_fresh st <= s_fresh st' ->
+    s_mu st' = (if holds (p_ph p') then Some a else None) ->
+    s_tmu st' = s_tmu st -> s_tcnt st' = s_tcnt st ->
+    wf_from (p_ph p') (p_rem p') = true -> tholds (p_ph p') = false ->
+    (uses_sess (p_rem p') = true -> uses_sess r = true) ->
+    p_sess p' = p_sess p -> p_cnt p' = p_cnt p ->
+    cont_ok st' p' -> (forall c, busy_on p c -> busy_on p' c) ->
+    Inv st'.
+  Proof.
+    intros Hh Hprocs Hl Hn Hf Hmu Htm Htc Hwf' Hth Hus' Hse Hcn Hco Hbz.
+    assert (Hc : forall c, cnext st' c = cnext st c) by (intros c; unfold cnext; rewrite Hl; reflexivity).
+    apply (holder_step st st' a p p' Iv Hp Hh); try assumption.
+    - intros t. unfold tnext. rewrite Hl. reflexivity.
+    - intros t. unfold snext. rewrite Hl. reflexivity.
+    - rewrite Hl. apply (i_valid _ Iv).
+    - intros Hu. apply Hus_tail. apply Hus'. exact Hu.
+    - intros c n Hcn'. rewrite Hn in Hcn'. rewrite Hc. destruct (i_next _ Iv _ _ Hcn') as [E|E]; [left; exact E|].
+      right. apply Hbz. apply busy_is_me; assumption.
+    - intros c Hfc. rewrite Hc, Hn. apply (i_fresh _ Iv). lia.
+  Qed.
+
+  (* the owner appends one frame of thread c carrying the number of frames c has *)
+  Lemma holder_append_step st' p' c f :
+    holds (p_ph p) = true -> holds ph' = true -> tholds ph' = false ->
+    s_procs st' = upd (s_procs st) a (Some p') ->
+    s_log st' = s_log st ++ [f] -> s_next st' = s_next st -> s_fresh st' = s_fresh st + 1 ->
+    s_mu st' = s_mu st -> s_tmu st' = s_tmu st -> s_tcnt st' = s_tcnt st ->
+    fkind f = KContinuity -> sid f = c -> seq f = cnext st c -> c < s_fresh st ->
+    p_rem p' = r -> p_ph p' = ph' -> p_sess p' = p_sess p -> p_cnt p' = p_cnt p ->
+    cont_ok st' p' -> busy_on p' c -> (forall c', busy_on p c' -> c' = c) ->
+    Inv st'.
+  Proof.
+    intros Hh Hh' Hth Hprocs Hl Hn Hf Hmu Htm Htc Hfk Hsid Hseq Hlt Hr' Hph' Hse Hcn Hco Hbz Hbo.
+    assert (Hc : forall c', c' <> c -> cnext st' c' = cnext st c').
+    { intros c' Hne. unfold cnext. rewrite Hl. apply snoc_same_kind_other. congruence. }
+    apply (holder_step st st' a p p' Iv Hp Hh); try assumption.
+    - intros t. unfold tnext. rewrite Hl. apply snoc_other_kind. rewrite Hfk. discriminate.
+    - intros t. unfold snext. rewrite Hl. apply snoc_other_kind. rewrite Hfk. discriminate.
+    - rewrite Hl. apply Valid_snoc_intro; [apply (i_valid _ Iv)|]. rewrite Hfk, Hsid. exact Hseq.
+    - rewrite Hph', Hh', Hmu. apply mu_is_me. exact Hh.
+    - rewrite Hr', Hph'. exact Hwr.
+    - rewrite Hph'. exact Hth.
+    - rewrite Hr'. apply Hus_tail.
+    - intros c' n Hcn'. rewrite Hn in Hcn'. destruct (N.eq_dec c' c) as [->|Hne]; [right; exact Hbz|].
+      rewrite Hc by exact Hne. destruct (i_next _ Iv _ _ Hcn') as [E|E]; [left; exact E|].
+      exfalso. apply Hne. apply Hbo. apply busy_is_me; assumption.
+    - intros c' Hfc. rewrite Hn. assert (c' <> c) by lia. rewrite Hc by assumption.
+      apply (i_fresh _ Iv). lia.
+  Qed.
+
+  (* the owner records next seq v = number of frames for thread c *)
+  Lemma holder_setnext_step st' p' c v :
+    holds (p_ph p) = true -> holds ph' = true -> tholds ph' = false ->
+    s_procs st' = upd (s_procs st) a (Some p') ->
+    s_log st' = s_log st -> s_next st' = upd (s_next st) c (Some v) -> s_fresh st' = s_fresh st ->
+    s_mu st' = s_mu st -> s_tmu st' = s_tmu st -> s_tcnt st' = s_tcnt st ->
+    v = cnext st c -> c < s_fresh st ->
+    p_rem p' = r -> p_ph p' = ph' -> p_sess p' = p_sess p -> p_cnt p' = p_cnt p ->
+    cont_ok st' p' -> (forall c', busy_on p c' -> c' = c) ->
+    Inv st'.
+  Proof.
+    intros Hh Hh' Hth Hprocs Hl Hn Hf Hmu Htm Htc Hv Hlt Hr' Hph' Hse Hcn Hco Hbo.
+    assert (Hc : forall c', cnext st' c' = cnext st c') by (intros c'; unfold cnext; rewrite Hl; reflexivity).
+    apply (holder_step st st' a p p' Iv Hp Hh); try assumption.
+    - intros t. unfold tnext. rewrite Hl. reflexivity.
+    - intros t. unfold snext. rewrite Hl. reflexivity.
+    - rewrite Hl. apply (i_valid _ Iv).
+    - rewrite Hph', Hh', Hmu. apply mu_is_me. exact Hh.
+    - rewrite Hr', Hph'. exact Hwr.
+    - rewrite Hph'. exact Hth.
+    - rewrite Hr'. apply Hus_tail.
+    - intros c' n Hcn'. rewrite Hn in Hcn'. rewrite Hc. destruct (N.eq_dec c' c) as [->|Hne].
+      + rewrite upd_same in Hcn'. inversion Hcn'. left. congruence.
+      + rewrite upd_other in Hcn' by exact Hne. destruct (i_next _ Iv _ _ Hcn') as [E|E]; [left; exact E|].
+        exfalso. apply Hne. apply Hbo. apply busy_is_me; assumption.
+    - intros c' Hfc. rewrite Hc, Hn. rewrite Hf in Hfc. assert (c' <> c) by lia.
+      rewrite upd_other by assumption. apply (i_fresh _ Iv). exact Hfc.
+  Qed.
+End Step.
